@@ -166,7 +166,7 @@ def rule_1(ctx):
             ctx.expect(excluded, site, construct,
                        f'{desc} is reachable for a string-literal operand: a syntactic decision depends '
                        f'on the characters of a text literal (e.g. =A1&": "&B1, =":x")')
-    ctx.floor(12, 'inspections of token text in parser/tokenizer/operand node/XLFormula')
+    ctx.floor(6, 'inspections of token text in parser/tokenizer/operand node/XLFormula')
 
 
 def _roles(ctx):
@@ -281,7 +281,7 @@ GRAMMAR_OPERANDS = ['TOK_SUBTYPE_TEXT', 'TOK_SUBTYPE_NUMBER', 'TOK_SUBTYPE_LOGIC
                     'TOK_SUBTYPE_ERROR', 'TOK_SUBTYPE_RANGE']
 
 
-def rule_3(ctx):
+def _rule_3_fragment(ctx):
     consts = _tok_consts(ctx)
     pm = ctx.mod('parser')
     sy = pm.func('FormulaParser.shunting_yard')
@@ -522,7 +522,7 @@ def rule_5(ctx):
     ctx.floor(12, 'state blocks, accumulation sites')
 
 
-def rule_7(ctx):
+def _rule_7_fragment(ctx):
     """Renderings that must not matter: leading '=', leading blanks, '@' before a function name."""
     pm = ctx.mod('parser')
     tk = pm.func('FormulaParser.tokenize')
@@ -590,7 +590,7 @@ class _WsTokens(PyModel):
         return self._n
 
 
-def rule_8(ctx):
+def _rule_8_fragment(ctx):
     """Decision table of the white-space filter: a blank becomes an intersection operator
     exactly between something that ends an operand and something that starts one."""
     consts = _tok_consts(ctx)
@@ -665,6 +665,92 @@ def rule_6(ctx):
              f'a tokenizer crash therefore makes a model unloadable (context for C02.1/C02.2)')
     ctx.expect(bool(uncond), pi, 'formula tokenised on construction',
                'XLFormula no longer tokenises its text on construction: terms/ranges would be empty')
+
+
+TREE_WITNESSES = [
+    # every kind of token the grammar has, consumed into the tree the text denotes
+    ('=SUM(A1,B1:B3,2)', ('call', 'SUM', 'A1', 'B1:B3', 2)),
+    ('=IF(A1>0,"y",-A1)', ('call', 'IF', ('op', '>', 'A1', 0), 'y', ('op', '-', 'A1'))),
+    ('=MAX(SUM(A1:A2),ABS(-3))*2', ('op', '*', ('call', 'MAX', ('call', 'SUM', 'A1:A2'), ('call', 'ABS', ('op', '-', 3))), 2)),
+    ('=PI()', ('call', 'PI')),
+    ('=PI()*A1^2', ('op', '*', ('call', 'PI'), ('op', '^', 'A1', 2))),
+    ('=TRUE', True), ('=FALSE', False), ('=AND(TRUE,FALSE)', ('call', 'AND', True, False)),
+    ('=#N/A', '#N/A'), ('=ISNA(#N/A)', ('call', 'ISNA', '#N/A')), ('=#DIV/0!+1', ('op', '+', '#DIV/0!', 1)), ('=IFERROR(#REF!,#VALUE!)', ('call', 'IFERROR', '#REF!', '#VALUE!')),
+    ('=1.5E+3+A1', ('op', '+', 1500.0, 'A1')), ('=2E-2*3', ('op', '*', 0.02, 3)), ('=12.75', 12.75), ('=007', 7),
+    ("=Sheet2!A1+'My Sheet'!$B$2", ('op', '+', 'Sheet2!A1', 'My Sheet!$B$2')), ('=$A$1:B$2', '$A$1:B$2'),
+    ('={1,2;3,4}', ('call', 'ARRAY', ('call', 'ARRAYROW', 1, 2), ('call', 'ARRAYROW', 3, 4))),
+    ('=SUM({1,2},3)', ('call', 'SUM', ('call', 'ARRAY', ('call', 'ARRAYROW', 1, 2)), 3)),
+    ('=_xlfn.CONCAT(A1,"x")', ('call', '_XLFN.CONCAT', 'A1', 'x')),
+    ('=CHOOSE(2,A1,B1,(C1+1))', ('call', 'CHOOSE', 2, 'A1', 'B1', ('op', '+', 'C1', 1))),
+    # string literals are opaque: colons, operator characters, function names, quotes inside them decide nothing
+    ('=":x"&A1', ('op', '&', ':x', 'A1')), ('=A1&": "&B1', ('op', '&', ('op', '&', 'A1', ': '), 'B1')), ('="a:OFFSET"&A1', ('op', '&', 'a:OFFSET', 'A1')),
+    ('=LEN(": total")', ('call', 'LEN', ': total')), ('="say ""hi"""', 'say "hi"'), ('="1+2"', '1+2'), ('="SUM(A1)"&"%"', ('op', '&', 'SUM(A1)', '%')),
+    ('=CONCATENATE("a,b",")","(")', ('call', 'CONCATENATE', 'a,b', ')', '(')), ('="x:INDEX"', 'x:INDEX'), ('=IF("TRUE"="true",1,2)', ('call', 'IF', ('op', '=', 'TRUE', 'true'), 1, 2)),
+]
+RENDERINGS = [
+    # renderings that must not change the tree: leading "=", leading blanks, line breaks, "@" before a function name
+    ('=A1+1', ['A1+1', ' =A1+1', '= A1+1', '=\nA1+1', '=A1+\n1', '=A1 + 1']),
+    ('=SUM(A1,B1)', ['=@SUM(A1,B1)', '=SUM( A1 , B1 )', 'SUM(A1,B1)', '=SUM(A1,\nB1)']),
+    ('=-A1^2', ['= -A1^2', '=- A1 ^ 2']),
+    ('=(A1+B1)*C1', ['=( A1 + B1 ) * C1', '=(A1+B1)*C1 ']),
+]
+
+
+def rule_3(ctx):
+    """Every kind of token the grammar has ends up where the text says: witness formulas with function calls, argument lists,
+    nested calls, arrays, booleans, error literals, numbers in every notation, sheet-qualified and absolute references and
+    string literals full of syntax characters - parsed by FormulaParser.parse as written, the tree read back symbolically."""
+    from . import parsetables as P
+    models = P.operator_models(ctx)
+    anchor = ctx.mod('parser').func('FormulaParser.parse')
+    for formula, want in TREE_WITNESSES:
+        got = P.parse_tree(ctx, formula, models)
+        ctx.expect(got == want, anchor, f'tree of {formula}',
+                   f'{formula!r} is parsed as {got!r}, expected {want!r}: every token must be consumed as what the text denotes (calls with their '
+                   'arguments in order, literals with their value, references with their text, string literals as opaque text)')
+    ctx.floor(len(TREE_WITNESSES), 'witness formulas')
+
+
+def rule_7(ctx):
+    """Renderings that must not matter: a leading "=", leading blanks, line breaks and blanks between tokens, "@" before a
+    function name - the tree is that of the plain rendering."""
+    from . import parsetables as P
+    models = P.operator_models(ctx)
+    anchor = ctx.mod('parser').func('FormulaParser.tokenize')
+    n = 0
+    for plain, others in RENDERINGS:
+        want = P.parse_tree(ctx, plain, models)
+        for g in others:
+            got = P.parse_tree(ctx, g, models)
+            n += 1
+            ctx.expect(got == want and not (isinstance(want, tuple) and want and want[0] == 'raise'), anchor, f'rendering {g!r} of {plain}',
+                       f'{g!r} is parsed as {got!r} but {plain!r} as {want!r}: a leading "=", blanks, line breaks and "@" must not matter')
+    ctx.floor(n, 'renderings')
+
+
+def rule_8(ctx):
+    """A blank between two tokens: dropped, or the intersection operator exactly between something that ends a value (reference,
+    literal, closing parenthesis of a call or sub-expression) and something that starts one - for every pair of contexts, on the
+    token stream FormulaParser.tokenize produces."""
+    from . import parsetables as P
+    consts = _tok_consts(ctx)
+    anchor = ctx.mod('parser').func('FormulaParser.tokenize')
+    n = 0
+    for with_blank, other, inter in P.blank_rows():
+        got = P.tokens_of(ctx, with_blank)
+        if inter:
+            left, right = P.tokens_of(ctx, other[0]), P.tokens_of(ctx, other[1])
+            ok = isinstance(got, list) and isinstance(left, list) and isinstance(right, list) and len(got) == len(left) + len(right) + 1 \
+                and got[:len(left)] == left and got[len(left) + 1:] == right \
+                and got[len(left)][1:] == (consts['TOK_TYPE_OP_IN'], consts['TOK_SUBTYPE_INTERSECT'])
+            want = 'the tokens of both sides with one intersection operator between them'
+        else:
+            ref = P.tokens_of(ctx, other)
+            ok = got == ref and isinstance(got, list)
+            want = f'the tokens of {other!r} (the blank dropped)'
+        n += 1
+        ctx.expect(ok, anchor, f'blank in {with_blank!r}', f'{with_blank!r} is tokenized as {got!r}, expected {want}')
+    ctx.floor(100, 'contexts of a blank')
 
 
 LITERAL_WITNESSES = [
